@@ -14,9 +14,9 @@ def main(tier):
             raise vlib.Inconclusive("KDCFailover: machine and closed form disagree or the theorem fails in the model:\n" + res.out[-3000:])
         run.add_model(res)
         files = []
-        for n in ([1, 2] if not run.thorough else [1, 2, 3]):
-            g = vlib.tlc_or_die(wd, "GenC12", cfg="GenC12_%d.cfg" % n, workers=1, timeout=900)
-            f = os.path.join(wd, "cases_%d.ndjson" % n)
+        for n in (["1", "2", "3q"] if not run.thorough else ["1", "2", "3"]):      # 3q: three KDCs over the fast behaviours only
+            g = vlib.tlc_or_die(wd, "GenC12", cfg="GenC12_%s.cfg" % n, workers=1, timeout=900)
+            f = os.path.join(wd, "cases_%s.ndjson" % n)
             os.rename(os.path.join(wd, "cases.ndjson"), f)
             files.append(f)
         trace = os.path.join(wd, "trace.ndjson")
@@ -39,7 +39,7 @@ def main(tier):
         run.cov["distinct_nontrivial"] = len({json.dumps([x["beh"], x["limit"]]) for x in lines if any(b["udp"] != "answers" or b["tcp"] != "answers" for b in x["beh"])})
         run.cov["rule"] = ("every assignment of a behaviour to each (KDC, transport) endpoint (UDP: answers/refuses/silent/KRB-ERROR/response-too-big; TCP: "
                            "answers/refuses/closes early/silent/KRB-ERROR/answers in two segments), assignments equal up to a permutation of the KDCs "
-                           "collapsed, x {tcp only, udp first, tcp first}: N = 1,2 (thorough 3); enumerated by TLC. Cases without a silent endpoint are "
+                           "collapsed, x {tcp only, udp first, tcp first}: N = 1,2 and N = 3 over the behaviours {answers, refuses, closes early} (thorough: N = 3 over all behaviours); enumerated by TLC. Cases without a silent endpoint are "
                            "all run; cases with silent endpoints (5 s timeouts) all for N = 1 and a seeded sample otherwise. distinct = assignments "
                            "with at least one faulty endpoint")
         for x in (lines[0], lines[len(lines) // 2], lines[-1]):
